@@ -87,7 +87,7 @@ def _parse_out(text):
     return ops, pre.get("done", False)
 
 
-def run_script(exe, script, timeout=120, workdir=None):
+def run_script(exe, script, timeout=120, workdir=None, want_text=False):
     """-> (ops, done, rc, stderr).  rc<0 = killed by signal (crash), rc None = timeout."""
     d = workdir or tempfile.mkdtemp(prefix="hdrv", dir=os.path.join(C.BUILD))
     sp = os.path.join(d, "s.scr"); op = os.path.join(d, "s.out")
@@ -107,6 +107,8 @@ def run_script(exe, script, timeout=120, workdir=None):
         if rc == 0: rc = -999
     if workdir is None:
         import shutil; shutil.rmtree(d, ignore_errors=True)
+    if want_text:
+        return ops, done, rc, err, text
     return ops, done, rc, err
 
 
